@@ -63,7 +63,7 @@ For each change write into its directory:
 - `notes.md` - first line: file and function changed; then: which clause of the property breaks, exactly what is needed for it to manifest
   (the minimal failing input / history / fault), and why the existing tests do not see it.
 
-Work one change at a time: edit, run the suite, run the demo, save `git diff > patch.diff`, then `git -C {wt} checkout -- .` before
+Never use `git stash` (it is shared between all worktrees of the repository and other agents work in parallel). Work one change at a time: edit, run the suite, run the demo, save `git diff > patch.diff`, then `git -C {wt} checkout -- .` before
 starting the next one, and verify the demo passes again on the clean tree. Leave the worktree clean (`git status` empty) at the end.
 `/venv/bin/python` (3.12) has pytest, black, pydantic, attrs, dirty-equals, pytest-xdist installed; there is no network. `pytest` is not on PATH,
 use `/venv/bin/python -m pytest`. If a change you try makes an existing test fail, it is not acceptable - try another one.
